@@ -127,10 +127,17 @@ def rule_c14(an, res):
     rule_order(an, res, prop, ['lfuda_cache'])
     for cm, roles in an.classes(['lfuda_cache']):
         aux = roles.count_struct
+        encodings = {}      # how the idle timer is kept: 'plain' (time of the last use) or 'due' (that time + tick) -> first site
         for m in an.entry_points(cm):
             k = ops.kind_of(m)
             for top in method_segments(an, cm, roles, m, res):
                 clocks = clock_syms(top)
+                for seg in top.all_segments():
+                    for e in seg.effs('STAMP'):
+                        encodings.setdefault(getattr(e, 'enc', 'plain'), (e.site, m, seg))
+                    for c in seg.conds:
+                        if c[0] in ('AGED', 'AGED_INCL'):
+                            encodings.setdefault(c[1][2] if len(c[1]) > 2 else 'plain', (c[3], m, seg))
                 # stamps
                 if k in ('INSERT', 'FIND'):
                     for b in ops.find_bodies(top, m):
@@ -202,6 +209,14 @@ def rule_c14(an, res):
                         if not ok:
                             V(res, prop, 'R-AGE-BEFORE-VICTIM', cm, b.where, 'victim is not the minimum-count entry read after the aging pass', unb[0].site,
                               'full insert path [%s]: aging pass before the eviction: %s; victim %r' % (' '.join(seg.valuation()), bool(age_before), v))
+        # one representation of the idle timer throughout: every stamp and every idle test agree on whether the stored instant is the
+        # time of the last use or that time + tick
+        res.ob('R-STAMP', ok=len(encodings) <= 1)
+        if len(encodings) > 1:
+            site, m2, seg2 = encodings['plain']
+            V(res, prop, 'R-STAMP', cm, where_of(m2, seg2), 'idle timer kept in two different representations', site,
+              'elsewhere the stored instant is (time of the last use + tick) and tested as `due < now`; here it is written / tested as the '
+              'plain time of the last use: the entry becomes due a whole tick early')
 
 
 def is_age_loop(segs):
